@@ -281,16 +281,10 @@ Fixpoint edit_node_h (wf : nat) (st : state) (head : iref) (key : str) (value : 
                       end
                   | Some n =>
                       if node_empty n then
-                        (* target->AsList() *)
-                        let '(a0, st1) := alloc st (HList []) in
-                        let '(st2, target1) := set_item st1 target (Some a0) in
-                        match vl with
-                        | [] => (true, st2, strip_cows depth target1)
-                        | _ =>
-                          let '(a', st3) := alloc st2 (HList vl) in
-                          let '(st4, target2) := set_item st3 target1 (Some a') in
-                          (true, st4, strip_cows depth target2)
-                        end
+                        (* an empty non-list node is converted: the new list is written once *)
+                        let '(a', st1) := alloc st (HList vl) in
+                        let '(st2, target') := set_item st1 target (Some a') in
+                        (true, st2, strip_cows depth target')
                       else (false, st, head)
                   | None => (false, set_ub st, head)
                   end
